@@ -80,7 +80,7 @@ CaseResult body(Chooser& ch, Stats* st) {
           a.porder[0] = mn + 1 + (uint32_t)ch.draw(0, 1); applied.push_back(which == 0 ? "penalty_above_order" : "penalty_above_order_shared_later_dim");
         } else { a.porder[d < a.porder.size() ? d : 0] = a.order[d] + 1 + (uint32_t)ch.draw(0, 2); applied.push_back("penalty_above_order"); }
         penalty_above = true; break; }
-      case 12: { static const uint32_t md[] = {0, 1, 0xfffffffeu}; uint32_t m = md[ch.draw(0, 2)]; a.monodim = m == 0xfffffffeu ? m : nd + m; applied.push_back("monodim_out_of_range"); must_reject = true; break; }
+      case 12: { static const uint32_t md[] = {0, 1, 0xfffffffeu, 0x80000000u, 0x7fffffffu, 1000, 0xfffffffeu, 0x80000001u}; uint32_t m = md[ch.draw(0, gen_version() >= 2 ? 7 : 2)]; a.monodim = m > 2000 ? m : nd + m; applied.push_back("monodim_out_of_range"); must_reject = true; break; }
       default: break;  // no-op draw
     }
   }
